@@ -136,6 +136,13 @@ example : view (step st0 1000 (.incr 2)).1 1000 = view st0 1000 := by decide
 example : (step st0 1000 (.rpoplpush 2 1)).2 = .err .wrongType ∧
     view (step st0 1000 (.rpoplpush 2 1)).1 1000 = view st0 1000 := by decide
 example : (step st0 1000 (.lmove 2 3 .left .right)).2 = .err .wrongType := by decide
+-- SORT src STORE dst with a wrong-type source (seed C17-sort-store-clears-ttl-before-type-check):
+-- dst = a (deadline 2000) keeps value and deadline; also with a non-numeric element in the source
+example : (step [(1, ⟨.list [[120]], some 2000⟩), (2, ⟨.hash [(5, [1])], none⟩)] 1000 (.sort 2 (some 1))).2 = .err .wrongType ∧
+    view (step [(1, ⟨.list [[120]], some 2000⟩), (2, ⟨.hash [(5, [1])], none⟩)] 1000 (.sort 2 (some 1))).1 1000 =
+      view [(1, ⟨.list [[120]], some 2000⟩), (2, ⟨.hash [(5, [1])], none⟩)] 1000 := by decide
+example : (step st0 1000 (.sort 2 (some 1))).2 = .err .notDouble ∧
+    view (step st0 1000 (.sort 2 (some 1))).1 1000 = view st0 1000 := by decide
 -- multi-element commands on a key of the wrong type
 example : (step st0 1000 (.sadd 2 [5, 6, 7])).2 = .err .wrongType := by decide
 example : (step st0 1000 (.hset 1 [(5, [1]), (6, [2])])).2 = .err .wrongType := by decide
